@@ -354,7 +354,7 @@ func checkErrFlow(p *Prog, fn *ssa.Function, c *ssa.Call, ev ssa.Value, sensitiv
 		if errIdx < 0 || errIdx >= len(ret.Results) {
 			return false
 		}
-		return D[ret.Results[errIdx]]
+		return D[retVal(ret, errIdx)]
 	}
 	if errIdx < 0 {
 		return "O2: enclosing function has no error result to return the storage error through"
